@@ -39,7 +39,7 @@ theorem start_GI {s : BSt} (h : Start s) (hg : s.cfg.grace ≠ 0) (hr : s.cfg.re
     sorted := fun i => by rw [hth]; exact List.Pairwise.nil
     leNow := fun i st hst => by rw [hth] at hst; cases hst
     qc := fun i => by rw [hth]; exact qc_default
-    bufCache := fun i hb => by rw [hth] at hb; exact absurd rfl hb
+    bufCache := fun i _ hb => by rw [hth] at hb; exact absurd rfl hb
     cacheReg := fun i hi => by rw [h.cache] at hi; cases hi
     fresh := fun _ i hi => by rw [h.registry] at hi; cases hi
     ctxLt := fun a x i hx => by rw [hact] at hx; cases hx
